@@ -218,6 +218,7 @@ def report_failure(ctx, runner, line, verdict, seen, origin):
     desc = "%s: %s%s" % (fn, sig["kind"], (" in " + sig["where"]) if sig["where"] else "")
     ctx.violation("legal call sequence not contained — " + desc,
                   {"kind": "failing-input", "stream": "api-seq", "signature": sig, "script": script, "observed": obs, "verdict": v2,
+                   "failing_call": (calls[parse_verdict(v2)[0] + 1] if parse_verdict(v2) and 0 <= parse_verdict(v2)[0] + 1 < len(calls) else ""),
                    "readable": calls, "sanitizer_report": err[:4000], "origin": origin,
                    "replay_cmd": "bin/check C12 --replay <this file>   (or: %s replay <file with the script line> -v)" % runner.exe},
                   signature=sig)
@@ -273,6 +274,12 @@ def run(ctx):
     ])
     quick = ctx.tier == "quick"
     ctx.cov["exclusions"] = EXCLUSIONS
+    # test aid only: extra known findings from a file (same format as KNOWN_FINDINGS.json), e.g. to compare a mutated tree
+    # against the unchanged one before the coordinator has recorded the baseline findings
+    extra = os.environ.get("C12_EXTRA_KNOWN")
+    if extra and os.path.exists(extra):
+        ctx.known += [k for k in json.load(open(extra)).get("findings", []) if k.get("property") == "C12" and k.get("status") == "known"]
+        ctx.cov["extra_known_file"] = extra
 
     # ---- build the library first: the translator cross-checks against its exported symbols
     ok, out = verif.build_geos("asan")
